@@ -502,3 +502,20 @@ pub fn parse_typed_raw(ty: Ty, b: &[u8]) -> Result<Parsed, RtcpParseError> {
 pub fn parse_typed(ty: Ty, b: &[u8]) -> Result<Result<Parsed, RtcpParseError>, crate::drive::Panicked> {
     crate::drive::call(|| parse_typed_raw(ty, b))
 }
+
+/// The same, but for feedback packets only the fixed header part is observed (no FCI decoding):
+/// what C09 is about.
+pub fn parse_typed_fixed_layout(ty: Ty, b: &[u8]) -> Result<Result<Parsed, RtcpParseError>, crate::drive::Panicked> {
+    let none = || FciObs { nack: Err(String::new()), pli: Err(String::new()), sli: Err(String::new()), rpsi: Err(String::new()), fir: Err(String::new()) };
+    crate::drive::call(|| match ty {
+        Ty::Tfb => {
+            let p = TransportFeedback::parse(b)?;
+            Ok(Parsed { hdr: hdr(&p), padding: p.padding(), content: Content::Fb { transport: true, fmt: p.count(), sender: p.sender_ssrc(), media: p.media_ssrc(), fci: none() } })
+        }
+        Ty::Pfb => {
+            let p = PayloadFeedback::parse(b)?;
+            Ok(Parsed { hdr: hdr(&p), padding: p.padding(), content: Content::Fb { transport: false, fmt: p.count(), sender: p.sender_ssrc(), media: p.media_ssrc(), fci: none() } })
+        }
+        other => parse_typed_raw(other, b),
+    })
+}
